@@ -51,6 +51,15 @@ def artefacts_file(path, workdir, tag):
     out["n_bp"] = len(bi.basePairs)
     out["n_st"] = len(bi.stackings)
     out["n_bphbr"] = len(bi.baseRiboseInteractions) + len(bi.basePhosphateInteractions)
+    # the JSON of ONE result object written before (first pass) and after (second pass) its stems were used for the
+    # PyMOL script and the stem tables' helpers: reading a result must not change what is written for it
+    m0 = Mapping2D3D(s3, bi.basePairs, bi.stackings, False)
+    if tag.endswith("_1"):
+        out["pml"] = annotator.generate_pymol_script(m0, s2.stems)
+        with contextlib.suppress(Exception):
+            m0.bpseq.without_isolated()
+    annotator.write_json(jp, s2)
+    out["json_before_or_after_pml"] = open(jp, "rb").read()
     m = Mapping2D3D(s3, bi.basePairs, bi.stackings, True)
     out["gaps_dot_bracket"] = m.dot_bracket
     out["gaps_all"] = "\n--\n".join(m.all_dot_brackets)
